@@ -137,4 +137,39 @@ theorem sortBits_perm {l1 l2 : List Bits} (h : l1.Perm l2) : sortBits l1 = sortB
     simp only [Bool.or_eq_true, decide_eq_true_eq]
     exact Nat.le_total _ _
 
+/-- value multisets of all cells are independent of the insertion order -/
+theorem cells_perm (o : Opts) (evs1 evs2 : List Ev) (hp : evs1.Perm evs2) :
+    (∀ key, (alookup key (build o evs1).tests).map sortBits = (alookup key (build o evs2).tests).map sortBits) ∧
+    (∀ k, (alookup k (build o evs1).base).map (fun b => sortBits b.2) =
+          (alookup k (build o evs2).base).map (fun b => sortBits b.2)) := by
+  constructor
+  · intro key
+    rw [tests_exact, tests_exact]
+    have p := hp.filter (hitsTest o key)
+    cases h1 : evs1.filter (hitsTest o key) with
+    | nil =>
+      rw [h1] at p
+      rw [p.symm.eq_nil]
+    | cons x l =>
+      cases h2 : evs2.filter (hitsTest o key) with
+      | nil => rw [h1, h2] at p; exact absurd p.length_eq (by simp)
+      | cons y l' =>
+        rw [h1, h2] at p
+        simp only [Option.map_some]
+        rw [sortBits_perm (p.map _)]
+  · intro k
+    rw [base_exact, base_exact]
+    have p := hp.filter (hitsBase o k)
+    cases h1 : evs1.filter (hitsBase o k) with
+    | nil =>
+      rw [h1] at p
+      rw [p.symm.eq_nil]
+    | cons x l =>
+      cases h2 : evs2.filter (hitsBase o k) with
+      | nil => rw [h1, h2] at p; exact absurd p.length_eq (by simp)
+      | cons y l' =>
+        rw [h1, h2] at p
+        simp only [Option.map_some]
+        rw [sortBits_perm (p.map _)]
+
 end C18
